@@ -116,6 +116,9 @@ def analyse(ctx, jobs, res, pid, do_predict=True, do_update=True):
             "states": {}, "controls": {}, "coq_predict_cases": 0, "coq_update_cases": 0}
     for j, (job, r) in enumerate(zip(jobs, res)):
         d = job["defn"]
+        if r.get("results_stable") is False:
+            ctx.violation("a state / covariance returned by the filter changed when the filter was used again (results share storage)",
+                          {"definition": d, "points": job["points"][:3]}, key="filter-result-unstable")
         if "error" in r:
             ctx.violation(f"python.compile_ekf refused / crashed on a valid definition: {r['kind']}",
                           {"definition": d, "error": r["error"]}, key=f"compile-raises:{r['kind']}")
